@@ -137,6 +137,79 @@ fn add_imports(rng: &mut Rng, t: &mut Tree, fns: &[(Vec<String>, String)], paths
     }
 }
 
+
+fn node(path: &[&str], fns: &[&str], imports: &[&str], subs: Vec<Tree>) -> Tree {
+    Tree {
+        path: path.iter().map(|s| s.to_string()).collect(),
+        fns: fns.iter().map(|s| s.to_string()).collect(),
+        imports: imports.iter().map(|s| s.to_string()).collect(),
+        subs,
+    }
+}
+
+/// planted corner cases of the resolution rules: (class, tree, caller path, called name)
+fn corner(k: usize) -> Option<(&'static str, Tree, Vec<String>, String)> {
+    let p = |v: &[&str]| v.iter().map(|s| s.to_string()).collect::<Vec<String>>();
+    Some(match k {
+        // an import made of `super` segments only: its last segment is the imported NAME, not a step
+        0 => ("corner.super_only_import_fn", node(&[], &["f"], &[], vec![node(&["a"], &[], &["super.super"], vec![])]), p(&["a"]), "super".into()),
+        1 => (
+            "corner.super_only_import_module",
+            node(&[], &["f"], &[], vec![node(&["a"], &[], &[], vec![node(&["a", "b"], &[], &["super.super"], vec![])])]),
+            p(&["a", "b"]),
+            "super.f".into(),
+        ),
+        2 => (
+            "corner.super_only_import_limit",
+            node(&[], &["f"], &[], vec![node(&["a"], &[], &["super.super.super"], vec![])]),
+            p(&["a"]),
+            "super".into(),
+        ),
+        // the import's key equals the called name but its target does not exist
+        3 => ("corner.import_target_missing", node(&[], &[], &[], vec![node(&["a"], &[], &["b.f"], vec![])]), p(&["a"]), "f".into()),
+        4 => (
+            "corner.module_import_target_missing",
+            node(&[], &[], &[], vec![node(&["a"], &[], &["super.util"], vec![]), node(&["util"], &["g"], &[], vec![])]),
+            p(&["a"]),
+            "util.f".into(),
+        ),
+        // priority: absolute path, then the caller's module, then the import
+        5 => (
+            "corner.priority_absolute",
+            node(&[], &["f"], &[], vec![node(&["a"], &["f"], &["super.util.f"], vec![]), node(&["util"], &["f"], &[], vec![])]),
+            p(&["a"]),
+            "f".into(),
+        ),
+        6 => (
+            "corner.priority_own_module",
+            node(&[], &[], &[], vec![node(&["a"], &["f"], &["super.util.f"], vec![]), node(&["util"], &["f"], &[], vec![])]),
+            p(&["a"]),
+            "f".into(),
+        ),
+        7 => (
+            "corner.priority_import",
+            node(&[], &[], &[], vec![node(&["a"], &[], &["super.util.f"], vec![]), node(&["util"], &["f"], &[], vec![])]),
+            p(&["a"]),
+            "f".into(),
+        ),
+        // relative dotted path (rule 2) beats a module import of the same first segment (rule 4)
+        8 => (
+            "corner.priority_relative_over_module_import",
+            node(
+                &[],
+                &[],
+                &[],
+                vec![node(&["a"], &[], &["super.m1.util"], vec![node(&["a", "util"], &["f"], &[], vec![])]), node(&["m1"], &[], &[], vec![node(&["m1", "util"], &["f"], &[], vec![])])],
+            ),
+            p(&["a"]),
+            "util.f".into(),
+        ),
+        // a call of `main` (only with C08_CALL_MAIN set: the observation is a finding, see findings)
+        9 if std::env::var("C08_CALL_MAIN").is_ok() => ("corner.call_main", node(&[], &["f"], &[], vec![]), p(&[]), "main".into()),
+        _ => return None,
+    })
+}
+
 fn int(i: i64) -> Card {
     Card::scalar_int(i)
 }
@@ -212,7 +285,8 @@ pub fn gen(a: &Args) {
         }
         let caller_imports = node_mut(&mut tree, &caller).imports.clone();
         let caller_fns = node_mut(&mut tree, &caller).fns.clone();
-        let name: String = match rng.below(12) {
+        let planted = if a.n >= 40 { corner(idx) } else { None };
+        let mut name: String = match rng.below(12) {
             0..=2 if !fns.is_empty() => {
                 w.count("name.absolute");
                 let (p, n) = rng.pick(&fns);
@@ -270,6 +344,18 @@ pub fn gen(a: &Args) {
                 rng.pick(&FN_NAMES).0.to_string()
             }
         };
+        let is_planted = planted.is_some();
+        if let Some((class, t, c, n)) = planted {
+            w.count(class);
+            w.count("corner.planted");
+            tree = t;
+            caller = c;
+            name = n;
+            fns.clear();
+            all_fns(&tree, &mut fns);
+            paths.clear();
+            all_paths(&tree, &mut paths);
+        }
         let nargs = arity_of(&name);
         let args: Vec<Card> = (0..nargs).map(|j| int(100 + j as i64)).collect();
         let by_value = rng.chance(1, 3);
@@ -291,7 +377,7 @@ pub fn gen(a: &Args) {
         // planted static faults
         let mut limit: u32 = 64;
         let mut main_pos = rng.below(tree.fns.len() as u64 + 1) as usize;
-        if rng.chance(1, 7) {
+        if rng.chance(1, 7) && !is_planted {
             match rng.below(8) {
                 0 => {
                     w.count("fault.no_main");
@@ -376,7 +462,12 @@ pub fn gen(a: &Args) {
                                 read(&vm, &p, "keep_after")
                             )
                         }
-                        Err(_) => "RRunErr".to_string(),
+                        Err(e) => {
+                            if std::env::var("C08_CALL_MAIN").is_ok() {
+                                eprintln!("C08 case {}: run error: {:?}", idx + 1, e.payload);
+                            }
+                            "RRunErr".to_string()
+                        }
                     }
                 }));
                 let robs = run.unwrap_or_else(|_| "RRunErr".to_string());
